@@ -177,6 +177,7 @@ type ackPeer struct {
 	acks    atomic.Int64
 	mu      sync.Mutex
 	streams []string
+	ackOn   []string // per acknowledgement received: the key of the stream it arrived on
 }
 
 func newAckPeer(t *testing.T) *ackPeer {
@@ -186,12 +187,16 @@ func newAckPeer(t *testing.T) *ackPeer {
 		p.streams = append(p.streams, strings.Join(md.Get(history.MetadataKeyClientClusterID), "")+":"+strings.Join(md.Get(history.MetadataKeyClientShardID), "")+
 			"<-"+strings.Join(md.Get(history.MetadataKeyServerClusterID), "")+":"+strings.Join(md.Get(history.MetadataKeyServerShardID), ""))
 		p.mu.Unlock()
+		key := p.streams[len(p.streams)-1]
 		p.opened.Add(1)
 		for {
 			req := newMsg(methodDesc(method).Input())
 			if err := ss.RecvMsg(req); err != nil {
 				return nil
 			}
+			p.mu.Lock()
+			p.ackOn = append(p.ackOn, key)
+			p.mu.Unlock()
 			p.acks.Add(1)
 		}
 	}
@@ -212,6 +217,7 @@ func waitFor(cond func() bool, d time.Duration) bool {
 // c09RouteAcks: DeliverAckToShardOwner over the full cross product, in real time; the remote hand-off goes through a
 // REAL intra-proxy receiver (gRPC client stream to a real server) created by EnsureReceiverForPeerShard.
 func c09RouteAcks(t *testing.T, e *Env) {
+	c09AckOnItsOwnStream(t, e)
 	peer := newAckPeer(t)
 	defer peer.be.Stop()
 	for _, local := range []string{"none", "sent", "shutdown", "closed", "closed+shutdown"} {
@@ -312,6 +318,69 @@ func c09RouteAcks(t *testing.T, e *Env) {
 					}
 				}
 			}
+		}
+	}
+}
+
+// c09AckOnItsOwnStream: the owner of a source shard books an acknowledgement under the target shard of the intra-proxy stream
+// it ARRIVES on. This instance holds two target shards T and T'; only the stream (T', S) to the owner is up (the one for T
+// is down or not yet re-established). An acknowledgement coming from T may be reported undeliverable — it must not reach
+// the owner on the stream of T'. Control: with the stream (T, S) up it arrives there.
+func c09AckOnItsOwnStream(t *testing.T, e *Env) {
+	peer := newAckPeer(t)
+	defer peer.be.Stop()
+	rTarget2 := history.ClusterShardID{ClusterID: rTarget.ClusterID, ShardID: rTarget.ShardID + 1}
+	for _, scen := range []string{"own-stream-up", "only-sibling-up", "both-up"} {
+		mlc := &config.MemberlistConfig{Enabled: true, NodeName: "n0", ProxyAddresses: map[string]string{"n0": "127.0.0.1:1", "n1": peer.be.Addr()}}
+		sm := proxy.NewShardManager(mlc, config.ShardCountConfig{Mode: config.ShardCountRouting, LocalShardCount: 4, RemoteShardCount: 4}, encryption.TLSConfig{}, noopLoggers())
+		proxy.VerifSetupCallbacks(sm)
+		proxy.VerifMergeRemoteState(sm, snapshotJSON("n1", rSource))
+		sm.RegisterShard(rTarget)
+		sm.RegisterShard(rTarget2)
+		ensure := func(tgt history.ClusterShardID) {
+			before := peer.opened.Load()
+			sm.GetIntraProxyManager().EnsureReceiverForPeerShard("n1", tgt, rSource)
+			if !waitFor(func() bool { return peer.opened.Load() > before }, 5*time.Second) {
+				t.Fatalf("intra-proxy receiver stream did not reach the peer")
+			}
+			time.Sleep(5 * time.Millisecond)
+		}
+		peer.mu.Lock()
+		nStreams := len(peer.streams)
+		peer.mu.Unlock()
+		if scen != "only-sibling-up" {
+			ensure(rTarget)
+		}
+		if scen != "own-stream-up" {
+			ensure(rTarget2)
+		}
+		peer.mu.Lock()
+		var ownKey string
+		if scen != "only-sibling-up" {
+			ownKey = peer.streams[nStreams]
+		}
+		ackBefore := len(peer.ackOn)
+		peer.mu.Unlock()
+		ok := sm.DeliverAckToShardOwner(rSource, &proxy.RoutedAck{TargetShard: rTarget, Req: ackReq(7)}, channel.NewShutdownOnce(), log.NewNoopLogger(), 7, true)
+		waitFor(func() bool { peer.mu.Lock(); defer peer.mu.Unlock(); return len(peer.ackOn) > ackBefore }, 300*time.Millisecond)
+		peer.mu.Lock()
+		arrived := append([]string{}, peer.ackOn[ackBefore:]...)
+		peer.mu.Unlock()
+		op := fmt.Sprintf("# ack-on-its-own-stream %s", scen)
+		e.Emit(op, "#")
+		e.Evals++
+		e.Count("ack_own_stream_" + scen)
+		for _, k := range arrived {
+			if k != ownKey {
+				e.Violation(map[string]any{"what": fmt.Sprintf("an acknowledgement coming from target shard %s reached the owner of the source shard on the intra-proxy stream %q (scenario %s; its own stream: %q): the owner books it under that stream's target shard (delivery returned %v)",
+					proxy.ClusterShardIDtoShortString(rTarget), k, scen, ownKey, ok), "ops": []string{op}})
+			}
+		}
+		if scen != "only-sibling-up" && (len(arrived) != 1 || !ok) {
+			e.Violation(map[string]any{"what": fmt.Sprintf("an acknowledgement coming from target shard %s with its stream to the owner up: delivery returned %v, %d acknowledgement(s) arrived", proxy.ClusterShardIDtoShortString(rTarget), ok, len(arrived)), "ops": []string{op}})
+		}
+		if mgr := sm.GetIntraProxyManager(); mgr != nil {
+			mgr.ClosePeer("n1")
 		}
 	}
 }
